@@ -54,7 +54,11 @@ NoSiteMols(e) == { g \in Mols(e) : Placed(e, g) /\ ~Sited(e, g) }
 (* the genome can contain it; observation only *)
 OutsideMols(e) == { g \in Mols(e) : /\ Sited(e, g) /\ \E t \in RegionTasks(e) : t.c = e.serial[g].sc
                                     /\ (e.serial[g].s < 0 \/ e.serial[g].s >= CLen(e, e.serial[g].sc)) }
-SkipKeys(e) == UNION { MKeys(e, g) : g \in NoSiteMols(e) \cup OutsideMols(e) }
+(* Only molecules whose site is not a base of the genome are exempt from the comparison.  A placed molecule for which the     *)
+(* code reports no site location at all has no owner bin (OneOwner / Complete do not speak about it), but "the same records"  *)
+(* still covers its records: region jobs drop such molecules (`continue`, tagging.py:126-128), so they must not exist - every *)
+(* shipped fragment class falls back to the position a read is stored at.                                                      *)
+SkipKeys(e) == UNION { MKeys(e, g) : g \in OutsideMols(e) }
 
 (* extent of a fragment = cells covered by its reads and its cut site: "one fragment length" of the statement *)
 FragExt(e, g, q) ==
@@ -118,7 +122,9 @@ EqualVerdict(e) ==
         got == { i \in DOMAIN out : KeyOfProj(out[i]) \notin skip }
         gotset == { out[i] : i \in got }
         NK(k) == Cardinality({ i \in got : KeyOfProj(out[i]) = k })
+        nosite == UNION { MKeys(e, g) : g \in NoSiteMols(e) }
     IN IF Cardinality(gotset) = Cardinality(got) /\ gotset = want THEN "ok"
+       ELSE IF \E w \in want : NK(KeyOfProj(w)) = 0 /\ KeyOfProj(w) \in nosite THEN "Inv_C08_Equal_missing_molecule_without_site"
        ELSE IF \E w \in want : NK(KeyOfProj(w)) = 0 THEN "Inv_C08_Equal_missing"
        ELSE IF \E w \in want : NK(KeyOfProj(w)) > 1 THEN "Inv_C08_Equal_duplicated"
        ELSE IF \E w \in want : w \notin gotset THEN "Inv_C08_Equal_changed"
